@@ -198,6 +198,18 @@ class TermRule(BaseRule):
             except Exception:
                 pass
         if opn == "add" and cur.sym and cur.sym.startswith("list(") and isinstance(stmt.target, ast.Name):
+            # xs += ys  is  xs.extend(ys)
+            op_, elts_ = destruct(cur.sym)
+            vt = term_of(v)
+            vop, vargs = destruct(vt)
+            if st.ts.get("loops", ()):
+                return None
+            if vop == "list":
+                return tv(T("list", *elts_, *vargs), none=False, truth=True)
+            if vop in ("listcomp", "gen", "setcomp") and len(vargs) == 2:
+                return tv(T("list", *elts_, T("rep", vargs[0], vargs[1])), none=False, truth=True)
+            if vt and vt != "?":
+                return tv(T("list", *elts_, T("star", vt)), none=False, truth=True)
             return None
         return tv(T(opn, term_of(cur), term_of(v)), none=False)
 
